@@ -17,19 +17,20 @@ class Ctx:
         self.encoded = set()
         self.mir_s = 0.0
 
-    def mir(self, crate):
+    def mir(self, crate, features=None):
         """MIR of /repo's current working tree (regenerated on every run)"""
-        if crate in self._mir:
-            return self._mir[crate]
+        key = crate + ("+" + features if features else "")
+        if key in self._mir:
+            return self._mir[key]
         os.makedirs(CACHE, exist_ok=True)
-        out = os.path.join(CACHE, crate + ".mir")
+        out = os.path.join(CACHE, key + ".mir")
         t0 = time.time()
         env = dict(os.environ, CARGO_NET_OFFLINE="true", CARGO_TARGET_DIR=os.path.join(CACHE, "target"))
         env.pop("RUSTFLAGS", None)
         # touch lib.rs so that cargo re-runs rustc (an up-to-date crate prints nothing)
         lib = os.path.join(REPO, crate, "src", "lib.rs")
         st = os.stat(lib)
-        cmd = ["cargo", "+nightly", "rustc", "--offline", "-p", crate, "--lib", "--", "-Zunpretty=mir",
+        cmd = ["cargo", "+nightly", "rustc", "--offline", "-p", crate, "--lib"] + (["--features", features] if features else []) + ["--", "-Zunpretty=mir",
                "-C", "debug-assertions=off", "-C", "overflow-checks=on"]
         import fcntl
         with open(os.path.join(CACHE, ".lock"), "w") as lk:
@@ -47,8 +48,8 @@ class Ctx:
                 raise RuntimeError(f"MIR dump of {crate} failed, see {out}.err")
             os.replace(out + ".tmp", out)
         self.mir_s += time.time() - t0
-        self._mir[crate] = mir.parse(out)
-        return self._mir[crate]
+        self._mir[key] = mir.parse(out)
+        return self._mir[key]
 
     def variant_index(self, funcs):
         cache = self._vidx
